@@ -39,6 +39,16 @@ func init() {
 		v + "Assume":  func(fr *frame, a []value) value { E.Assume(toSym(a[0], 0)); return nil },
 		v + "Assert":  rtAssert,
 		v + "Note":    func(fr *frame, a []value) value { return nil },
+		v + "StepBudget": func(fr *frame, a []value) value {
+			n := asInt64(a[0])
+			if n <= 0 {
+				E.budgetAt = 0
+			} else {
+				E.budgetAt = E.instrs + n
+				E.budgetMsg = a[1].(string)
+			}
+			return nil
+		},
 		v + "Symbolic": func(fr *frame, a []value) value { return true },
 		v + "MapOrder": func(fr *frame, a []value) value { E.mapOrder = int(asInt64(a[0])); return nil },
 		v + "Thorough": func(fr *frame, a []value) value { return os.Getenv("VERIF_TIER") == "thorough" },
